@@ -830,6 +830,11 @@ class Sample(Contract):
             enl = [x for x in p.events if x[0] == "resample" and not isinstance(x[3], NoneV)]
             p.prove(z3.And(to_real(enl[-1][2]) == 1, to_int(enl[-1][3]) == g["n_final"]), f"{q}:C08:enlargement resamples at temperature 1 to n_final_samples")
             p.prove(z3.BoolVal(enl[-1][4] is s.f["rng"]), f"{q}:C20:enlargement uses the sampler's generator")
+            k_enl = max(i for i, x in enumerate(p.events) if x is enl[-1])
+            after = [x for x in p.events[k_enl + 1:] if x[0] == "mutate"]
+            p.prove(z3.BoolVal(len(after) == 1 and after[0][1] is enl[-1][5]), f"{q}:C05:C10:the enlarged population is mutated exactly once")
+            if len(after) == 1:
+                p.prove(to_real(after[0][2]) == 1, f"{q}:C05:the final mutation of the enlarged population targets temperature 1 (the posterior), whatever temperature the loop stopped at")
         beta = to_real(env["beta"])
         goal = to_real(fin.f["beta"]) == 1
         if sh["max_n_steps"]:
